@@ -35,7 +35,7 @@ pub fn emit(src: &str) -> Option<Vec<u8>> {
 
 fn load_obs(bytes: &[u8]) -> String {
   let b = bytes.to_vec();
-  match std::panic::catch_unwind(move || ParsedProgram::from_bytes(&b)) {
+  let mem: String = match std::panic::catch_unwind(move || ParsedProgram::from_bytes(&b)) {
     Err(_) => "hostpanic".into(),
     Ok(Ok(_)) => "accepted".into(),
     Ok(Err(e)) => {
@@ -44,7 +44,21 @@ fn load_obs(bytes: &[u8]) -> String {
       else if k.contains("FileTooShort") { "rejected:short".into() }
       else { format!("rejected:other:{}", k) }
     }
+  };
+  // the same bytes as a file on disk, through the two loaders that take a path: they must decide as the in-memory
+  // loader does (a damaged file accepted from disk is reported instead of the in-memory verdict)
+  let path = std::env::temp_dir().join(format!("mvh-c07-{}-{:?}.mecb", std::process::id(), std::thread::current().id()).replace(['(', ')'], ""));
+  if std::fs::write(&path, bytes).is_ok() {
+    let p1 = path.clone();
+    let f1 = match std::panic::catch_unwind(move || load_program_from_file(&p1)) { Err(_) => "hostpanic", Ok(Ok(_)) => "accepted", Ok(Err(_)) => "rejected" };
+    let p2 = path.clone();
+    let f2 = match std::panic::catch_unwind(move || mech::read_mech_source_file(&p2)) { Err(_) => "hostpanic", Ok(Ok(_)) => "accepted", Ok(Err(_)) => "rejected" };
+    let _ = std::fs::remove_file(&path);
+    let m = if mem.starts_with("rejected") { "rejected" } else { mem.as_str() };
+    if f1 != m { return format!("from-file:{}(in-memory:{})", f1, mem); }
+    if f2 != m { return format!("from-source-file:{}(in-memory:{})", f2, mem); }
   }
+  mem
 }
 
 fn pslug(p: &Box<dyn std::any::Any + Send>) -> String {
